@@ -78,6 +78,14 @@ def stream_sample(ctx, ntables):
     for ti in range(ntables):
         ncols = R.choice([1, 2, 3, 4, 5, 6, 7])
         t = ES.gen_typed_table(R, max_rows=R.choice([40, 150, 400]), ncols=ncols)
+        if R.random() < 0.3:          # timestamps far from today (open-ended markers, historical dates), microsecond / second resolution dtypes
+            n = t["n"]
+            pool = [pd.Timestamp(x) for x in R.choice([["2099-12-31", "2021-03-04", "2019-07-01 08:30:00"], ["9999-12-31", "2020-01-01", "2020-06-30"],
+                                                       ["2150-01-01", "2150-01-02", "2163-11-05 01:02:03"], ["1400-01-01", "1492-10-12", "1200-05-05"]])]
+            col = pd.Series([R.choice(pool) for _ in range(n)], dtype=R.choice(["datetime64[us]", "datetime64[s]"]))
+            if R.random() < 0.3 and n > 3: col[R.randrange(n)] = pd.NaT
+            df = t["df"].copy(); j = R.randrange(len(df.columns)); df[df.columns[j]] = col
+            t["df"] = df; t["kinds"][j] = "ts"
         strs = list(strategies(R, t))
         picks = R.sample(strs, min(len(strs), ctx.scale(2, 4)))
         if ncols >= 5 and not any(d == "main-index-0" for d, _ in picks):
@@ -99,6 +107,28 @@ def stream_sample(ctx, ntables):
             S.count((repr(t["df"].values.tolist()), desc, repr(t["ap"])), ncols >= 3 or multi,
                     {"table": ES.typed_summary(t), "strategy": desc, "clusters": PS.clusters_str(syn.clusters), "rows_out": len(out)}, tag=desc.split("-")[0] + ("/multi" if multi else ""))
             check_output(ctx, t, out, desc)
+    # one strategy object (main column / target given by name) used for two tables that have the named column at different positions
+    from syndiffix.clustering.strategy import DefaultClustering
+    for _ in range(ctx.scale(3, 20)):
+        t = ES.gen_typed_table(R, max_rows=R.choice([40, 150]), ncols=R.choice([6, 7]))
+        df = t["df"]; name = R.choice(list(df.columns)); strat = DefaultClustering(main_column=name, max_weight=R.choice([15.0, 6.0]))
+        others = [c for c in df.columns if c != name]; R.shuffle(others)
+        keep = others[: R.choice([4, 4, len(others)])]; pos = R.choice([0, 0, len(keep), R.randrange(len(keep) + 1)])
+        cols2 = keep[:pos] + [name] + keep[pos:]                       # the named column moves; the second table may be narrower
+        first = df[[c for c in df.columns if c != name] + [name]] if R.random() < 0.8 else df
+        for step, d in (("first table", first), ("second table, same strategy object", df[cols2])):
+            t2 = dict(t, df=d, kinds=[t["kinds"][list(df.columns).index(c)] for c in d.columns])
+            desc = f"main-name-{name} ({step})"
+            try:
+                out = Synthesizer(d, pids=t["pids"], anonymization_params=t["ap"], bucketization_params=t["bp"], clustering=strat).sample()
+            except RecursionError:
+                ctx.oracle_fail("RecursionError during synthesis", {"table": ES.typed_summary(t2), "strategy": desc}, "recursion-depth-add_row"); break
+            except Exception as e:
+                empty_cluster = isinstance(e, ValueError) and ("empty range in randrange(0, 0)" in str(e) or "Empty sequence in cluster" in str(e))
+                ctx.oracle_fail(f"synthesis raised {type(e).__name__}: {str(e)[:200]} ({desc})",
+                                {"table": ES.typed_summary(t2), "strategy": desc, "columns": list(d.columns)}, "raises-empty-cluster" if empty_cluster else "raises"); break
+            S.count((repr(d.values.tolist()), desc, repr(t["ap"])), True, {"table": ES.typed_summary(t2), "strategy": desc, "rows_out": len(out)}, tag="strategy-reused")
+            check_output(ctx, t2, out, desc)
     # regression corpus: F1 (read-only normalisation), F10 (known finding)
     try:
         Synthesizer(pd.DataFrame({"a": [1, 2, 3, 4] * 10})).sample()
